@@ -1,30 +1,119 @@
+/-
+  Props.C08 — TSM files and tombstones read back what was written.
+
+  The functions under proof are the model's (`Model/Tsm*.lean`, written from
+  `tsdb/engine/tsm1/{writer,reader,tombstone}.go`; layout constants and the leaf
+  predicates `IndexEntry.Contains/OverlapsTimeRange`, `TimeRange.Overlaps` are
+  regenerated from the Go source on every run, `Generated/TsmLayout.lean`).
+  Every theorem holds for an arbitrary checksum function `crc` and an arbitrary
+  gzip satisfying `Gzip.spec`.  Helper lemmas live in `Lemmas/Tsm*.lean`.
+-/
 import Influx.Model.TsmOps
 import Influx.Spec.C08
+import Influx.Lemmas.TsmRoundtrip
+import Influx.Lemmas.TsmLookup
+import Influx.Lemmas.TsmTombBytes
+import Influx.Lemmas.TsmCrash
 
 namespace Influx.Props.C08
-open Influx.Tsm
+open Influx.Tsm Influx.Spec.C08
 
-theorem unbe_foldl (bs : Bytes) (a : Nat) :
-    bs.foldl (fun a b => a * 256 + b) a = a * 256 ^ bs.length + unbe bs := by
-  induction bs generalizing a with
-  | nil => simp [unbe]
-  | cons b bs ih =>
-    simp only [List.foldl_cons, List.length_cons, unbe]
-    rw [ih, ih (0 * 256 + b)]
-    simp [Nat.pow_succ, Nat.add_mul, Nat.mul_assoc, Nat.mul_comm 256, Nat.add_assoc]
+/-! ## 1. the file: byte-level round trip -/
 
-theorem be_length (n v : Nat) : (be n v).length = n := by
-  induction n with
-  | zero => rfl
-  | succ n ih => simp [be, ih]
+/-- **Round trip.** For every list of keys with blocks within the limits of the format
+    (`WFFile`: ≥ 1 key, key length and blocks per key < 2^16, times in int64, block size
+    in 32 bits, file size in int64) the bytes `header ++ blocks ++ index ++ footer` parse
+    back — through the footer, the magic/version check and the index decoder — to exactly
+    the keys, block types and index entries (min, max, offset, size) that were laid out. -/
+theorem C08_roundtrip (crc : Bytes → Nat) (kbs : List (Key × List Blk)) (h : WFFile kbs) :
+    parseFile (serialise crc kbs) = .ok (layout 5 kbs) :=
+  parseFile_serialise crc kbs h
 
-theorem be_roundtrip (n v : Nat) : unbe (be n v) = v % 256 ^ n := by
-  induction n with
-  | zero => simp [be, unbe, Nat.mod_one]
-  | succ n ih =>
-    simp only [be, unbe, List.foldl_cons]
-    rw [unbe_foldl, ih, be_length]
-    simp only [Nat.zero_mul, Nat.zero_add]
-    rw [Nat.pow_succ, Nat.mod_mul, Nat.add_comm, Nat.mul_comm]
+/-- big-endian integers read back (the base of every field of the format) -/
+theorem be_roundtrip (n v : Nat) : unbe (be n v) = v % 256 ^ n := unbe_be n v
+
+/-- one index section (any keys/entries within the field widths) decodes to itself -/
+theorem C08_index_roundtrip (kes : List KeyEntry) (h : ∀ ke ∈ kes, WFKeyEntry ke) :
+    decIndex ((kes.flatMap encKeyEntry).length + 1) (kes.flatMap encKeyEntry) = some kes :=
+  decIndex_enc kes h _ (by have := flatMap_length_ge kes; omega)
+
+/-! ## 2. lookups agree with the content -/
+
+/-- **Seek** = the number of keys below the target (the key count when all are below). -/
+theorem C08_seek (ix : Index) (h : IndexInv ix) (key : Key) :
+    searchOffset ix key = (ix.live.filter fun ke => klt ke.key key).length :=
+  searchOffset_eq_rank ix h.sortedLive key
+
+/-- **Exact lookup** (`search`, behind Entries / Entry / Type / Contains / ContainsValue):
+    the live index entry with that key. -/
+theorem C08_search (ix : Index) (h : IndexInv ix) (key : Key) :
+    search ix key = ix.live.find? (fun ke => ke.key = key) := search_eq_find h key
+
+theorem C08_entries (ix : Index) (h : IndexInv ix) (key : Key) :
+    Tsm.entriesOf ix key = ((ix.live.find? fun ke => ke.key = key).map (·.entries)).getD [] := by
+  unfold Tsm.entriesOf; rw [search_eq_find h]; cases ix.live.find? _ <;> rfl
+
+theorem C08_type (ix : Index) (h : IndexInv ix) (key : Key) :
+    typeOf ix key = (ix.live.find? fun ke => ke.key = key).map (·.typ) := by
+  unfold typeOf; rw [search_eq_find h]
+
+/-- the index built by the reader from a strictly sorted key list satisfies the invariant -/
+theorem C08_open_inv (kes : List KeyEntry) (hs : SortedKE kes) : IndexInv (mkIndex kes) := mkIndex_inv kes hs
+
+/-! ## 3. the tombstone file -/
+
+/-- **Walk reads back what was committed**, member after member, byte level. -/
+theorem C08_walk_roundtrip (G : Gzip) (ms : List (List Tombstone)) (h : ∀ m ∈ ms, ∀ t ∈ m, WFTomb t) :
+    walkBytes G (tfileBytes G ms) = some ms.flatten := walkBytes_tfile G ms h
+
+/-- **walk (commit (add old new)) = old ++ new.** -/
+theorem C08_walk_commit (G : Gzip) (ms : List (List Tombstone)) (new : List Tombstone)
+    (h : ∀ m ∈ ms, ∀ t ∈ m, WFTomb t) (hn : ∀ t ∈ new, WFTomb t) :
+    walkBytes G (tfileBytes G ms ++ G.zip (encTombs new)) = some (ms.flatten ++ new) :=
+  walk_commit G ms new h hn
+
+/-- **Crash atomicity** of `prepareV4 … commit` in the file-system model (durable bytes +
+    unsynced appended chunks per inode, pending directory operations, atomic rename): cut
+    the protocol after ANY number of steps and let ANY byte-prefix of the unsynced data
+    and ANY prefix of the pending directory operations survive — under the tombstone name
+    the restart finds the old bytes (no file if there was none) or the complete new file. -/
+theorem C08_crash_atomic (tomb tmp : String) (hne : tomb ≠ tmp) (dir0 : Dir) (inodes0 : Nat → Inode) (i : Nat)
+    (hold : OldOK tomb dir0 inodes0 i) (fs : FS) (hq : Quiescent tmp dir0 inodes0 i fs)
+    (base : Bytes) (chunks : List Bytes) (k : Nat) (fs' : FS)
+    (hc : CrashOf (run fs ((commitSteps tomb tmp base chunks).take k)) fs') :
+    readDurable fs' tomb = oldBytes tomb dir0 inodes0 ∨ readDurable fs' tomb = some (base ++ chunks.flatten) :=
+  commit_crash_atomic tomb tmp hne dir0 inodes0 i hold fs hq base chunks k fs' hc
+
+/-- … and what the restart reads there is the old tombstone list or old ++ new, never a mixture. -/
+theorem C08_crash_walk (G : Gzip) (tomb tmp : String) (hne : tomb ≠ tmp) (dir0 : Dir) (inodes0 : Nat → Inode)
+    (i j : Nat) (hj : dir0 tomb = some j) (ms : List (List Tombstone)) (new : List Tombstone)
+    (hold : OldOK tomb dir0 inodes0 i) (holdb : (inodes0 j).durable = tfileBytes G ms)
+    (fs : FS) (hq : Quiescent tmp dir0 inodes0 i fs) (chunks : List Bytes)
+    (hch : chunks.flatten = G.zip (encTombs new))
+    (h : ∀ m ∈ ms, ∀ t ∈ m, WFTomb t) (hn : ∀ t ∈ new, WFTomb t) (k : Nat) (fs' : FS)
+    (hc : CrashOf (run fs ((commitSteps tomb tmp (tfileBytes G ms) chunks).take k)) fs') :
+    (readDurable fs' tomb).bind (walkBytes G) = some ms.flatten ∨
+    (readDurable fs' tomb).bind (walkBytes G) = some (ms.flatten ++ new) := by
+  rcases commit_crash_atomic tomb tmp hne dir0 inodes0 i hold fs hq _ chunks k fs' hc with h1 | h1
+  · left
+    rw [h1]
+    simp only [oldBytes, hj, Option.map_some, Option.bind_some, holdb]
+    exact walkBytes_tfile G ms h
+  · right
+    rw [h1, hch]
+    exact walk_commit G ms new h hn
+
+/-! ## 4. the statement checker on the model, and where the full statement fails -/
+
+/-- The full statement (every trace of the model satisfies the statement checker) is FALSE
+    of the code: blocks written under the empty key are not a key of the file
+    (`directIndex.Add` takes `len(d.key) == 0` for "no current key"); here the file holds
+    only the empty key, its index is empty and the reader rejects it. -/
+theorem C08_full_fails :
+    ¬ ∀ (crc : Bytes → Nat) (ops : List Op), holdsOn (traceOf crc ops) = true := by
+  intro h
+  have := h (fun _ => 0) [.wb [] 1 2 [1] none, .wi, .open_]
+  revert this
+  decide
 
 end Influx.Props.C08
